@@ -549,6 +549,63 @@ def h_simple(t, part):
     return compare(a, b, 'simple-client', [SC_OPS[o] for o in plan])
 
 
+# ---- the API of a write-only (external process) pub/sub manager --------------------------------------------------------------
+W_OPS = ['emit', 'emit namespace room', 'emit skip_sid list', 'emit callback', 'enter_room', 'leave_room', 'close_room',
+         'close_room no namespace', 'disconnect', 'disconnect no namespace', 'send-like emit to sid']
+
+
+def run_writer(asyncio_, plan):
+    import pickle
+    from harness import c07
+    chan = []
+    m = c07.make_manager(asyncio_, chan, write_only=True)
+    m.host_id = 'fixed-host-id'
+    drv = worlds.AsyncDriver(None, 2000) if asyncio_ else worlds.SyncDriver()
+    tr = []
+
+    def api(tag, thunk):
+        try:
+            tr.append((tag, 'returned', drv.call(thunk())))
+        except Exception as e:
+            tr.append((tag, 'raised', exc_name(e)))
+    for op in plan:
+        name = W_OPS[op]
+        if name == 'emit':
+            api(name, lambda: m.emit('ev', {'a': 1}))
+        elif name == 'emit namespace room':
+            api(name, lambda: m.emit('ev', (1, 'x'), namespace='/a', room='lobby'))
+        elif name == 'emit skip_sid list':
+            api(name, lambda: m.emit('ev', 1, namespace='/', to='lobby', skip_sid=['s1', 's2']))
+        elif name == 'emit callback':
+            api(name, lambda: m.emit('ev', 1, namespace='/', room='s1', callback=lambda *a: None))
+        elif name == 'enter_room':
+            api(name, lambda: m.enter_room('s1', '/', 'lobby'))
+        elif name == 'leave_room':
+            api(name, lambda: m.leave_room('s1', '/', 'lobby'))
+        elif name == 'close_room':
+            api(name, lambda: m.close_room('lobby', '/a'))
+        elif name == 'close_room no namespace':
+            api(name, lambda: m.close_room('lobby'))
+        elif name == 'disconnect':
+            api(name, lambda: m.disconnect('s1', '/a'))
+        elif name == 'disconnect no namespace':
+            api(name, lambda: m.disconnect('s1'))
+        else:
+            api(name, lambda: m.emit('message', 'hello', to='s1'))
+    drv.finish()
+    tr.append(('published', [pickle.loads(x) for x in chan]))
+    return tr
+
+
+def h_writer(t, part):
+    plan = [t.choice(len(W_OPS)) for _ in range(part['n'])]
+    with notrace():
+        a = run_writer(False, plan)
+        b = run_writer(True, plan)
+    t.reached('pair')
+    return compare(a, b, 'write-only-manager', [W_OPS[o] for o in plan])
+
+
 def server_parts(tier):
     n = 3 if tier == 'quick' else 4
     out = [{'n': n, 'classns': cn, 'first': f} for cn in (False, True) for f in range(len(S_OPS))]
@@ -574,6 +631,7 @@ CHECKS = [
     dict(name='clients', fn=h_client, parts=client_parts, budget={'quick': 180, 'thorough': 900}),
     dict(name='pubsub-managers', fn=h_pubsub, parts=[{'n': 2, 'first': f} for f in range(len(P_KINDS))],
          budget={'quick': 180, 'thorough': 300}),
+    dict(name='write-only-manager', fn=h_writer, parts=[{'n': 2}], budget={'quick': 60, 'thorough': 60}),
     dict(name='simple-clients', fn=h_simple, parts=simple_parts, budget={'quick': 180, 'thorough': 600}),
 ]
 
